@@ -47,9 +47,15 @@ def outcome(fn):
         d = fn()
         return dict(ok=True, errs=[], ast=[P.document(d)]), d
     except CompositeParserException as e:
-        return dict(ok=False, errs=[P.error(x) for x in e.errors], ast=[]), None
+        try:
+            return dict(ok=False, errs=[P.error(x) for x in e.errors], ast=[]), None
+        except P.Unprojectable as u:
+            return dict(ok=False, errs=[], ast=[], exception="unprojectable error: " + str(u)), None
     except ParserException as e:
-        return dict(ok=False, errs=[P.error(e)], ast=[], single=True), None
+        try:
+            return dict(ok=False, errs=[P.error(e)], ast=[], single=True), None
+        except P.Unprojectable as u:
+            return dict(ok=False, errs=[], ast=[], exception="unprojectable error: " + str(u)), None
     except Exception as e:  # noqa: BLE001
         return dict(ok=False, errs=[], ast=[], exception=type(e).__name__ + ":" + str(e)[:200]), None
 
@@ -149,7 +155,7 @@ class Gate:
             self.cv.notify_all()
 
 
-def replay_schedule(pool, sess, default="en"):
+def replay_schedule(pool, sess, default="en", own_matcher=True):
     """Real parsers in threads, interleaved at loop-iteration granularity exactly as TLC's schedule says."""
     order = [s[1] for s in sess["sched"] if s[0] == "T"]
     gate = Gate(order)
@@ -173,7 +179,7 @@ def replay_schedule(pool, sess, default="en"):
         h = sess["hist"][p][0]
         parser = GatedParser(p + 1, AstBuilder(IdGenerator()))
         try:
-            o, _ = outcome(lambda: parser.parse(pool[h["d"] - 1], TokenMatcher(default)))
+            o, _ = outcome(lambda: parser.parse(pool[h["d"] - 1], TokenMatcher(default)) if own_matcher else parser.parse(pool[h["d"] - 1]))
         finally:
             if parser.holding:
                 gate.done_turn()
